@@ -84,6 +84,41 @@ def wrapper_install_rule(prog, run, rid):
         raise AnalysisBroken("C06.%s: the report-allocator installation cannot be folded: %s" % (rid, u))
 
 
+def stash_rule(prog, run, rid):
+    """GlobalMemoryAllocatorStash (the save / restore pair test groups use around allocator switching) against a model of the three
+    current-allocator cells: whatever is installed between save() and restore(), restore() puts back each family's own allocator; a
+    stash that never saved restores nothing."""
+    from .common import object_state
+    ST, FAMS = "GlobalMemoryAllocatorStash", ("Malloc", "New", "NewArray")
+    sv, rs = prog.fn(ST + "::save"), prog.fn(ST + "::restore")
+    run.analysed(sv)
+    run.analysed(rs)
+    orig = {"Malloc": 7001, "New": 7002, "NewArray": 7003}
+    cur = dict(orig)
+    hooks = string_hooks()
+    for fam in FAMS:
+        hooks["getCurrent%sAllocator" % fam] = lambda *a_, fam=fam: cur[fam]
+        hooks["setCurrent%sAllocator" % fam] = lambda *a_, fam=fam: (cur.__setitem__(fam, a_[-1]), 0)[1]
+    try:
+        state = object_state(prog, ST, [], [], steps=[("save", [])], hooks=hooks)
+        cur.update({"Malloc": 8001, "New": 8002, "NewArray": 8003})
+        ev = Evaluator(prog, rs, env=dict(state), calls=hooks)
+        ev.pass_object = True
+        ev.run_blocks(rs.entry, max_steps=300)
+        ok = cur == orig
+        run.ob(rid, "save() then restore() folded with other allocators installed in between: every family gets back its own allocator", rs.site, ok, witness={"current after restore": dict(cur), "saved": orig},
+               what="" if ok else "after restore() the current allocators are %s, at save() they were %s: blocks of one family are then released through another family's allocator" % (cur, orig))
+        fresh = object_state(prog, ST, [], [], steps=[], hooks=hooks)
+        cur.update({"Malloc": 8001, "New": 8002, "NewArray": 8003})
+        ev = Evaluator(prog, rs, env=dict(fresh), calls=hooks)
+        ev.pass_object = True
+        ev.run_blocks(rs.entry, max_steps=300)
+        ok = cur == {"Malloc": 8001, "New": 8002, "NewArray": 8003}
+        run.ob(rid, "restore() on a stash that never saved changes nothing", rs.site, ok, witness={"current after restore": dict(cur)})
+    except Unknown as u:
+        raise AnalysisBroken("C06.%s: the allocator stash cannot be folded: %s" % (rid, u))
+
+
 def check(ctx, run):
     prog = ctx.program()
     run.assume("user code writes only through the pointer it was given; which bytes it writes is not decided")
@@ -92,7 +127,7 @@ def check(ctx, run):
     run.rule("R2", "guard writer/reader agreement folded: what addMemoryCorruptionInformation writes validates; every single changed guard byte (each position x other values) is rejected; every call site passes memory + size", floor=12, exhaustive=True)
     run.rule("R3", "deallocMemory skeleton: NULL returns silently; unknown address => one non-allocated report and no free; known => checkForCorruption then free_memory once", floor=3)
     run.rule("R4", "poisoning (SIBLING over the release wrappers): invalidateMemory(p) precedes deallocMemory(..., p, ...) with the same pointer; invalidateMemory fills size_ bytes of a known block with a non-zero constant", floor=7)
-    run.rule("R6", "wrapper installation (memory-report plugin) folded against a model of the three current-allocator cells: each family's wrapper is put in front of that family's own allocator, removal restores each family, a foreign allocator installed meanwhile is left alone", floor=5)
+    run.rule("R6", "wrapper installation (memory-report plugin) folded against a model of the three current-allocator cells: each family's wrapper is put in front of that family's own allocator, removal restores each family, a foreign allocator installed meanwhile is left alone; the allocator stash's save / restore folded against the same model", floor=7)
     run.rule("R5", "wrapper allocators (SIBLING over the class hierarchy): every TestMemoryAllocator subclass that holds another allocator resolves actualAllocator() through that member's actualAllocator()", floor=4)
 
     # ---------------- R1 ----------------------------------------------------
@@ -372,6 +407,10 @@ def check(ctx, run):
             okp = False
     run.ob("R4", "invalidateMemory overwrites size_ bytes of a tracked block with a non-zero pattern", iv.site, okp, witness=w)
 
+    # a correctly paired release is not reported: a refused realloc must have left the block's record alone (shared with C04.R5)
+    from .C04 import refused_realloc_rule
+    refused_realloc_rule(prog, run, "R3")
+
     # ---------------- R5 ----------------------------------------------------
     subs = prog.subclasses("TestMemoryAllocator")
     n5 = 0
@@ -403,6 +442,7 @@ def check(ctx, run):
     if n5 < 4:
         run.broke("only %d wrapper allocator classes found (4 confirmed by hand)" % n5)
     wrapper_install_rule(prog, run, "R6")
+    stash_rule(prog, run, "R6")
     base = prog.fn("TestMemoryAllocator::actualAllocator")
     run.analysed(base)
     ev = Evaluator(prog, base, env={"this": 600})
